@@ -55,8 +55,19 @@ def _inside(v, lo, hi):
 def select(time, lat, lon, window):
     """(time indices, node indices per-axis reading, node indices whole-space
     reading) for coordinates as stored (single precision values)."""
-    for k, v in window.items():
+    # A bound that is not a single-precision number is accepted only when it
+    # is the position of a sample as the caller gave it (its single-precision
+    # value is a stored coordinate of that axis): the sample lies ON the
+    # bound of the closed window and the bound is read as the stored value.
+    # Any other such bound would make "inside" depend on a rounding the
+    # property does not define.
+    window = dict(window)
+    axis_vals = {"time": time, "lat": lat, "lon": lon}
+    for k, v in list(window.items()):
         if f32(v) != float(v):
+            if f32(v) in axis_vals[k.split("_")[0]]:
+                window[k] = f32(v)
+                continue
             raise ValueError("window bound %s=%r is not a float32 number"
                              % (k, v))
     tmin, tmax = window["time_min"], window["time_max"]
